@@ -51,8 +51,22 @@ func dclass(f float64) string {
 
 func c04Case(r *evid.Run, tier string, idx int, g *rng.R) {
 	o := adoc.GenOpts{MinNodes: 5, MaxNodes: 40, NS: g.Intn(2), Misc: true, NumericText: g.P(60), Unicode: g.P(30)}
+	if idx%4 == 1 {
+		o.XMLSafe, o.NoAdjText = true, true
+	}
 	d := adoc.Generate(g, o)
 	w, err := newWorld(d)
+	if err == nil && idx%4 == 1 {
+		// every fourth case goes through the XML text and xsel.ReadXml (R-xml): string-values as parsed
+		w, err = newXMLWorld(d, g)
+		r.Count("cases_through_ReadXml", 1)
+		if err != nil {
+			// the generated text is well-formed and round-trips exactly: a node whose kind, name or
+			// value differs after ReadXml has a string-value other than the data model's
+			r.Violate("string-value/through-ReadXml", map[string]any{"case": idx, "what": "the tree ReadXml built differs from the document's data model: " + err.Error(), "xml": d.ToXML(adoc.XMLOpts{}), "document": d.Dump()})
+			return
+		}
+	}
 	if err == nil && idx%4 == 3 {
 		// every fourth case runs the evaluator on the independent Cursor implementation (R-ref)
 		w, err = newRefWorld(d)
